@@ -104,7 +104,7 @@ func cmdFunc(args []string) int {
 			rc = 1
 		}
 		for _, o := range res.Obligations {
-			ans := Solve(o.Query, o.Name, SolverCfg{Timeout: time.Duration(*timeout) * time.Second, WorkDir: work})
+			ans := Solve(o.Query, o.Name, SolverCfg{Timeout: time.Duration(*timeout) * time.Second, WorkDir: work, Order: o.Order})
 			ans = preferSmall(o, ans, CheckOpts{Timeout: time.Duration(*timeout) * time.Second}, work)
 			status := "ok"
 			if ans.Result == o.Expect {
